@@ -48,7 +48,7 @@ def rule_concat_once(db: ProgramDB) -> List[Instance]:
     counts = yield_counts(cfg)
     ok = counts == {1}
     out.append(inst("CONCAT-ONCE", HOLDS if ok else VIOLATION, m, "Concatenate._evaluate__[rows per evaluation]",
-                    f"number of rows yielded over all paths: {sorted('many' if c == 2 else c for c in counts)}" +
+                    f"number of rows yielded over all paths: {['many' if c == 2 else c for c in sorted(counts)]}" +
                     ("" if ok else "; concatenate must yield exactly one row")))
     # the aggregate yield must not sit inside the loop over child bindings
     loops = [n for n in own_nodes(m.node) if isinstance(n, (ast.For, ast.While))]
